@@ -46,6 +46,16 @@ OBS = {
 RESULT_ONLY = ["parameter_errors", "parameter_cov_mat", "parameter_cor_mat"]
 RESULT_KEYS = ("parameter_errors", "parameter_cov_mat", "parameter_cor_mat", "asymmetric_parameter_errors")
 READS_EXTRA = ["report"]
+# public evaluation METHODS with arguments are reads too (FitWorld.observe names 'call:<method>:<arguments>'; grid = user points that are
+# neither the data points nor as many, pars = explicit model parameters): quick = one call per method, thorough = every argument form
+CALL_READS_QUICK = {
+    "xy": ["call:eval_model_function:grid", "call:eval_model_function_derivative_by_parameters:grid+pars", "call:error_band:grid"],
+    "indexed": [],
+    "hist": ["call:eval_model_function_density:grid"],
+    "unbinned": ["call:eval_model_function:grid"],
+}
+# the model curve at user points is an observable as well (compared like every other one)
+CALL_OBS = {"xy": ["call:eval_model_function:grid"], "indexed": [], "hist": ["call:eval_model_function_density:grid"], "unbinned": ["call:eval_model_function:grid"]}
 KINDS = {
     "xy": {"quick": ["y-abs", "y-abs-rho", "y-rel", "y-rel-model", "x-abs"], "thorough": ["y-abs", "y-abs-rho", "y-rel", "y-rel-model", "x-abs", "y-cov", "x-rel", "y-abs-model", "x-abs-model"]},
     "indexed": {"quick": ["y-abs", "y-abs-rho", "y-rel", "y-rel-model"], "thorough": ["y-abs", "y-abs-rho", "y-rel", "y-rel-model", "y-cov", "y-cov-rel", "y-abs-model"]},
@@ -54,6 +64,14 @@ KINDS = {
 }
 COST = {"xy": "chi2", "indexed": "chi2", "hist": "nll", "unbinned": "nll"}
 MODEL = {"xy": "expo", "indexed": "idx2", "hist": "normal", "unbinned": "normal"}
+# further cost functions (5th element of cfg): the Gaussian approximation keeps a flag of its own that goodness_of_fit switches off and on
+# again; ':nodet' = cost function OBJECT built with add_determinant_cost=False. Start states: a correlated source (the covariance-based
+# cost object is the one that is read and minimised) / an uncorrelated one (do_fit and goodness_of_fit use the pointwise twin object)
+STARTS_COST = {
+    "xy": [(("add", "y-abs-rho", "s0"),), (("add", "y-abs", "s0"),), (("add", "x-abs", "s0"), ("add", "y-abs-rho", "s1"))],
+    "indexed": [(("add", "y-abs-rho", "s0"),), (("add", "y-abs", "s0"),)],
+    "hist": [(("add", "y-abs-rho", "s0"),), (("add", "y-abs", "s0"),)],
+}
 STARTS = {
     "xy": [(), (("add", "y-abs", "s0"),), (("add", "x-abs", "s0"), ("add", "y-abs", "s1"), ("add", "y-rel-model", "s2"))],
     "indexed": [(), (("add", "y-abs", "s0"),), (("add", "y-abs", "s0"), ("add", "y-rel-model", "s1"))],
@@ -63,10 +81,12 @@ STARTS = {
 
 
 def make_world(cfg):
-    ftype, dea, minimizer, v = cfg
+    ftype, dea, minimizer, v = cfg[:4]
+    cost = cfg[4] if len(cfg) > 4 else COST[ftype]
     if ftype == "unbinned":
         return FitWorld(ftype, COST[ftype], model=MODEL[ftype], v=v, minimizer=minimizer)
-    return FitWorld(ftype, COST[ftype], model=MODEL[ftype], v=v, minimizer=minimizer, dea=dea, n=8 if ftype in ("xy", "indexed") else 5)
+    model = "lin" if (ftype == "xy" and len(cfg) > 4) else MODEL[ftype]  # count data for the Gaussian approximation: rising straight line
+    return FitWorld(ftype, cost, model=model, v=v, minimizer=minimizer, dea=dea, n=8 if ftype in ("xy", "indexed") else 5)
 
 
 def mutators(w, kinds, allow_fit, nadd_max):
@@ -125,7 +145,7 @@ def fit_ok(w):
 
 def neutral_segments(w, reads, tier, allow_fit):
     """Deviation menu in the current state: reads first (simplest), then cancelling pairs."""
-    segs = [(("read", r),) for r in reads]
+    segs = [(("read", r),) for r in reads if r != "call:error_band:grid" or w.fitted]  # (an error band exists only after a fit)
     names = list(w.sources) + list(w.container_sources)
     enabled = [n for n in names if w._src(n)[1]]
     if len(enabled) > 1:
@@ -236,7 +256,7 @@ def jobs(tier, seed):
             ("indexed", "nonlinear", "iminuit", [(1, False, 2, 6), (2, True, 1, 2), (0, False, 1, 1)]),
             ("hist", "nonlinear", "iminuit", [(0, False, 2, 3), (1, True, 1, 1)]),
             ("unbinned", "nonlinear", "iminuit", [(0, False, 2, 2), (0, True, 1, 1)]),
-            ("xy", "iterative", "scipy", [(2, False, 1, 2), (2, True, 1, 2)]),
+            ("xy", "iterative", "scipy", [(2, False, 1, 2), (2, True, 1, 4)]),
             ("xy", "nonlinear", "iminuit", [(0, False, 1, 1)]),
         ]
         vals = [v]
@@ -276,28 +296,64 @@ def jobs(tier, seed):
             for si, fitted_start, L, nshard in sts:
                 for sh in range(nshard):
                     specs.append((ftype, dea, mini, vv, si, fitted_start, L, tier, sh, nshard))
+    # other cost functions: spec gets an 11th element (cost identifier), start index refers to STARTS_COST
+    if tier == "quick":
+        cplan = [
+            ("hist", "gauss_approximation", [(0, False, 1, 1), (0, True, 1, 1), (1, False, 1, 1)]),
+            ("hist", "gauss_approximation:nodet", [(0, False, 1, 1), (0, True, 1, 1)]),
+            ("indexed", "gauss_approximation", [(0, False, 1, 1), (0, True, 1, 1)]),
+        ]
+    else:
+        cplan = [
+            (f, c, [(0, False, 2, 4), (0, True, 1, 1), (1, False, 2, 4), (1, True, 1, 1)] + ([(2, False, 1, 2), (2, True, 1, 1)] if f == "xy" else []))
+            for f in ("hist", "indexed", "xy")
+            for c in ("gauss_approximation", "gauss_approximation:nodet")
+        ]
+    for ftype, cost, sts in cplan:
+        for si, fitted_start, L, nshard in sts:
+            for sh in range(nshard):
+                specs.append((ftype, "nonlinear", "iminuit", v, si, fitted_start, L, tier, sh, nshard, cost))
+    if tier == "quick":
+        specs.sort(key=lambda sp: 0 if sp[2] == "scipy" else 1)  # scheduling only: the slowest jobs (scipy, fitted start: ~70 s per 600 executions) start first
     return specs
 
 
 def bound(tier, seed):
     if tier == "quick":
-        return "base mutator sequences of length <= 2 from 2-3 start states (bare / sources / x+y+model-relative), each also after do_fit; one neutral segment (read of any of ~22 observables, or a cancelling pair) at any position; xy+indexed+hist+unbinned with iminuit/nonlinear and xy with scipy/iterative; valuation %d" % (seed % 3)
-    return "base sequences of length <= 2 with the full observable (21) and source-kind alphabets on all fit types, both algorithms and both backends (one valuation), the quick plan on the two other valuations; base sequences of length 3 for xy and indexed fits (iminuit, nonlinear, quick alphabets, one valuation); one neutral segment at any position"
+        return (
+            "base mutator sequences of length <= 2 from 2-3 start states (bare / sources / x+y+model-relative), each also after do_fit; one neutral segment (read of any of ~22 "
+            "observables incl. the evaluation methods at user points (model curve, parameter derivatives, error band), or a cancelling pair) at any position; a read placed "
+            "last is followed by the observables in rotated order (every (read, first observable afterwards) pair occurs); xy+indexed+hist+unbinned with "
+            "iminuit/nonlinear and xy with scipy/iterative; hist and indexed fits with the Gaussian-approximation cost (identifier, and object without determinant term): "
+            "base sequences of length <= 1 from a correlated / an uncorrelated source, also after do_fit; valuation %d" % (seed % 3)
+        )
+    return (
+        "base sequences of length <= 2 with the full observable (21) and source-kind alphabets on all fit types, both algorithms and both backends (one valuation), the quick plan "
+        "on the two other valuations; base sequences of length 3 for xy and indexed fits (iminuit, nonlinear, quick alphabets, one valuation); one neutral segment at any position "
+        "(reads include every argument form of the evaluation methods); hist / indexed / xy fits with the Gaussian-approximation cost with and without determinant term: base sequences of length <= 2"
+    )
 
 
 def run_job(spec):
-    ftype, dea, mini, v, si, fitted_start, L, tier, shard, nshard = spec
-    cfg = (ftype, dea, mini, v)
+    ftype, dea, mini, v, si, fitted_start, L, tier, shard, nshard = spec[:10]
+    cost = spec[10] if len(spec) > 10 else None
+    cfg = (ftype, dea, mini, v) + ((cost,) if cost else ())
     res = JobResult()
     kinds = KINDS[ftype]["quick" if tier in ("quick", "thorough-L3") else "thorough"]
-    start = STARTS[ftype][si] + ((("fit",),) if fitted_start else ())
+    start = (STARTS_COST if cost else STARTS)[ftype][si] + ((("fit",),) if fitted_start else ())
     allow_fit = not fitted_start
     bases = enumerate_bases(cfg, start, L, kinds, allow_fit)
     bases = [b for i, b in enumerate(bases) if i % nshard == shard]
     cache = RefCache(cfg)
-    obs_all = (OBS_QUICK if tier in ("quick", "thorough-L3") else OBS)[ftype]
-    reads = obs_all + READS_EXTRA
-    for base in bases:
+    obs_all = (OBS_QUICK if tier in ("quick", "thorough-L3") else OBS)[ftype] + CALL_OBS[ftype]
+    if tier in ("quick", "thorough-L3"):
+        call_reads = CALL_READS_QUICK[ftype]
+    else:
+        w0 = make_world(cfg)
+        call_reads = w0.call_names()
+        w0.dispose()
+    reads = obs_all + READS_EXTRA + [r for r in call_reads if r not in obs_all]
+    for bi, base in enumerate(bases):
         full = start + base
         has_fit = fitted_in(full)
         # minimiser results are compared only when nothing was changed after the fit (what they mean after a later
@@ -319,7 +375,7 @@ def run_job(spec):
                 break
             segs = neutral_segments(wp, reads, tier, allow_fit and not has_fit)
             wp.dispose()
-            for seg in segs:
+            for si_, seg in enumerate(segs):
                 ops = prefix + seg + base[pos:]
                 seg_has_fit = fitted_in(seg)
                 try:
@@ -336,8 +392,19 @@ def run_job(spec):
                     for o in base[pos:]:
                         res.facts["read-before:%s:%s" % (ftype, o[0])] += 1
                 bad = False
-                for o in olist:
-                    pure_read = seg[0][0] == "read"
+                pure_read = seg[0][0] == "read"
+                order = olist
+                if pure_read and pos == len(base):
+                    # "reads in any order": directly after a read the observables are read in rotated order, so that over the bases of a job
+                    # every observable is the FIRST one read after every kind of read (a getter that re-synchronises the fit cannot hide what
+                    # the inserted read did to the observables that do not)
+                    k = (bi + si_) % len(olist)
+                    order = olist[k:] + olist[:k]
+                    if ftype == "xy" and not cost:
+                        res.facts["first-after-read:%s:%s>%s" % (ftype, seg[0][1], order[0])] += 1
+                if cost:
+                    res.facts["cost:%s:%s" % (ftype, cost)] += 1
+                for o in order:
                     if not pure_read and o in RESULT_ONLY:
                         continue  # minimiser results are not defined across configuration changes, even cancelling ones
                     if seg_has_fit and o in ("did_fit", "result_dict"):
@@ -357,7 +424,7 @@ def run_job(spec):
                 res.outcomes[(ftype, seg_tag(seg).split(":")[0], "ok" if not bad else "MISMATCH")] += 1
                 w.dispose()
     res.sample(dict(cfg=list(cfg), start=[list(o) for o in start], bases=len(bases), example=[_j(o) for o in (bases[len(bases) // 2] if bases else ())]))
-    res.facts["cfg:%s:%s:%s" % (ftype, dea, mini)] += 1
+    res.facts["cfg:%s:%s:%s" % (ftype + (":" + cost if cost else ""), dea, mini)] += 1
     return res.as_dict()
 
 
@@ -367,7 +434,7 @@ def _j(op):
 
 def _viol(res, cfg, ops, obs, exp, act, mode, base=None):
     hist = [dict(cfg=list(cfg), base=[_j(o) for o in base] if base is not None else None)] + [_j(o) for o in ops]
-    sig = "%s/%s/%s|%s" % (cfg[0], cfg[1], cfg[2], ";".join(_optag(o) for o in ops))
+    sig = "%s/%s/%s|%s" % (cfg[0] + (":" + cfg[4] if len(cfg) > 4 else ""), cfg[1], cfg[2], ";".join(_optag(o) for o in ops))
     res.violation(sig, hist, obs, exp, act, mode)
 
 
@@ -412,3 +479,9 @@ def vacuity_guards(tot, tier):
         yield "fit type %s explored" % f, any(k.startswith("cfg:%s:" % f) for k in tot.facts)
     for m in ("add", "con", "set", "fix", "data", "fit", "dis"):
         yield "a deviation was placed before mutator '%s' (xy)" % m, tot.facts.get("read-before:xy:%s" % m, 0) > 0
+    for f in ("hist", "indexed"):
+        yield "Gaussian-approximation cost explored (%s)" % f, tot.facts.get("cost:%s:gauss_approximation" % f, 0) > 0
+    obs_xy = (OBS_QUICK if tier == "quick" else OBS)["xy"]
+    for r in CALL_READS_QUICK["xy"][:2] + ["goodness_of_fit", "model", "report"]:
+        missing = [o for o in obs_xy if tot.facts.get("first-after-read:xy:%s>%s" % (r, o), 0) == 0]
+        yield "after read '%s' every observable was the first one read (xy)%s" % (r, "" if not missing else " missing: " + ",".join(missing)), not missing
